@@ -80,6 +80,9 @@ def c05extra():
 for pid, h in [('C02','VpC02'),('C03','VpC03'),('C05','VpC05'),('C10','VpC10')]:
     R[pid] = {"quick": codec(h,'quick'), "thorough": codec(h,'thorough'), "bounds": CODEC_B, "bounds_thorough": CODEC_BT, "require_reach": ["reach:end"], "opts": {"unwind": 300},
         "outside_claim": ["shapes (list lengths, text lengths, block sequences) not listed in the bounds", "RR/SR profile extensions that are not a multiple of four octets (see DESIGN: outside the well-formed domain D of C02/C03)"]}
+for t in ('quick','thorough'):
+    R['C10'][t] = R['C10'][t] + [{"h":"VpC10","x":[[K['XR']],[12,13,14,15]]},{"h":"VpC10","x":[[K['XR']],[13],[5,13,4]]}]
+R['C10']['bounds'] += "; plus XR reports with 1 receipt time, DLRR blocks with 0 and 2 sub-blocks (alone and followed by another block), an 8-octet unknown block"
 R['C05']['quick'] += c05extra()
 R['C05']['thorough'] += c05extra()
 R['C05']['bounds'] += "; plus length-focused shapes: RR and SR profile extensions of 1..9 octets, SDES texts and BYE reasons of 5..9 octets, APP data of 6,7,9 octets, 5 CCFB metric blocks, XR blocks with odd RLE chunk counts (1,3), 1 receipt time, 0 and 2 DLRR sub-blocks, 8-octet unknown block"
@@ -95,9 +98,9 @@ def dispatch(lens):
     return [{"h":"VpC07_Dispatch","x":[lens,[0,200,201,203,204,206,207]]},
             {"h":"VpC07_Dispatch","x":[[l for l in lens if l <= 20],[202,205]]}]
 R['C07'] = {
- "quick": dispatch([4,8,12,16,20,24]) + [{"h":"VpC07_Foreign","a":foreign}],
- "thorough": dispatch([4,8,12,16,20,24,28,32]) + [{"h":"VpC07_Foreign","a":foreign}],
- "bounds": "dispatch: one well-framed frame of 4..24 octets (4..20 for PT 202 and 205) with all 32 count/FMT values and all body bytes symbolic, one query per packet type class {not 200..207, 200, ..., 207}; foreign rejection: all 14x14 ordered pairs of distinct decoder/packet types plus unknown-type raw packets, the foreign packet built from symbolic field values and encoded by the RFC reference encoder",
+ "quick": dispatch([4,8,12,16,20,24]) + [{"h":"VpC07_Foreign","a":foreign},{"h":"VpC07_Own","a":[minimal[k] for k in range(1,16)]}],
+ "thorough": dispatch([4,8,12,16,20,24,28,32]) + [{"h":"VpC07_Foreign","a":foreign},{"h":"VpC07_Own","a":[minimal[k] for k in range(1,16)]}],
+ "bounds": "dispatch: one well-framed frame of 4..24 octets (4..20 for PT 202 and 205) with all 32 count/FMT values and all body bytes symbolic, one query per packet type class {not 200..207, 200, ..., 207}; own output: the Marshal output of a minimal symbolic value of each of the 15 kinds is dispatched back to its type; foreign rejection: all 14x14 ordered pairs of distinct decoder/packet types plus unknown-type raw packets, the foreign packet built from symbolic field values and encoded by the RFC reference encoder",
  "bounds_thorough": "as quick with frames up to 32 octets",
  "require_reach": ["reach:end","reach:row-raw"], "opts": {"unwind": 100},
  "outside_claim": ["frames longer than the bound", "TWCC frames with packet status count above 8"],
@@ -191,6 +194,35 @@ R['C09'] = {"quick": c09('quick'), "thorough": c09('thorough'),
  "require_reach": ["reach:end","reach:accepted"], "opts": {"unwind": 100},
  "assumptions": ["TransportLayerCC is compared only when its decoded header is consistent with its content, as the property states"],
  "outside_claim": ["datagrams with several frames (locality is C06)", "frames longer than the bound"]}
+
+def c17(level):
+    big = level == 'thorough'
+    q = [{"h":"VpC17_REMB","x":[rng(0,255)]},{"h":"VpC17_Enums"},
+         {"h":"VpC17_Decoded","x":[[4,8,12,16,20,24] + ([28] if big else []),[0,200,201,204],[-1]]},
+         {"h":"VpC17_Decoded","x":[[4,8,12,16] + ([20] if big else []),[202,203,206],[-1]]},
+         {"h":"VpC17_Decoded","x":[[8,12] + ([16] if big else []),[207],[-1]]},
+         {"h":"VpC17_Decoded","x":[[12,16,20],[205],[1,5,11,15,0]]}]
+    for c in shapes(level):
+        d = dict(c); d['h'] = 'VpC17_WellFormed'; q.append(d)
+    return q
+R['C17'] = {"quick": c17('quick'), "thorough": c17('thorough'),
+ "bounds": "REMB String over every float32 bit pattern (one query per exponent field, sign and fraction symbolic); all 256 values of PacketType, SDESType, BlockTypeType, TTLorHopLimitType and all 2^16 XR chunks; String/stringify/CompoundPacket.String of every packet decoded from one symbolic frame (4..24 octets for unknown types, SR, RR, APP; 4..16 for SDES, BYE, PSFB; 8..12 for XR; 12..20 for RTPFB incl. CCFB and TWCC with status count <= 8); String of the well-formed values of the codec shapes alone and inside a compound",
+ "require_reach": ["reach:end","reach:accepted"], "opts": {"unwind": 300, "fmtmethods": 1},
+ "assumptions": ["fmt.Sprintf/Sprint and strings.* are stubs that return an opaque string and do not panic; String/Error methods of their operands are executed, and a panic inside such a nested call is recovered (as fmt does), so only panics in package rtcp's own code outside fmt are reported"],
+ "outside_claim": ["panics inside package fmt or strings", "frames longer than the bound"]}
+kinds9 = rng(1,9)
+R['C15'] = {
+ "quick": [{"h":"VpC15","a":[[]] + [[k] for k in kinds9] + [[k1,k2] for k1 in kinds9 for k2 in kinds9]}],
+ "thorough": [{"h":"VpC15","a":[[]] + [[k] for k in kinds9] + [[k1,k2] for k1 in kinds9 for k2 in kinds9] + [[k1,k2,k3] for k1 in [1,3,5,6,8] for k2 in kinds9 for k3 in [2,4,7,9,8]]}],
+ "bounds": "every sequence of 0, 1 and 2 report blocks over the 7 RFC 3611 kinds and two unknown-block shapes (block type symbolic over 0 and 8..255, 0 or 4 content octets), all scalar fields symbolic, RLE blocks with 2 chunks, 2 receipt times, 1 DLRR sub-block",
+ "bounds_thorough": "as quick plus 225 three-block sequences",
+ "require_reach": ["reach:end"], "opts": {"unwind": 300},
+ "assumptions": ["reflect is modelled by the engine against go/types of the current source (struct field order, tags, exportedness, sizes)"],
+ "outside_claim": ["longer block sequences and other list lengths", "RLE blocks with an odd number of chunks (recorded under C05)"]}
+R['C13'] = {
+ "quick": [{"h":"VpC13","a":[[20,8],[24,7],[24,14],[28,7]]},{"h":"VpC13_Chunkings","x":[[0,1,2,3,4],[0,1,2,3,4,8]]}],
+ "thorough": [{"h":"VpC13","a":[[20,16],[24,7],[24,14],[24,16],[28,7],[28,14],[32,7]]},{"h":"VpC13_Chunkings","x":[[0,1,2,3,4],rng(0,16)]}],
+ "bounds": "wip", "require_reach": ["reach:end","reach:accepted"], "opts": {"unwind": 100}}
 
 cheap = [1,2,4,5,6,7,10,11,12,13,15,17,18,20,21,22,23]
 def c01(level):
